@@ -17,8 +17,9 @@ func init() {
 		"(R5) the backend leaf is {LeafValue = tls.Marshal(merkle leaf), LeafIdentityHash = SHA-256 of the leaf certificate DER, ExtraData = chain structure for the entry type}; "+
 		"(R6) the whole validated path (root included) is raw[0], raw[1:] with raw[i] = chain[i].Raw; "+
 		"(R7) MerkleTreeLeafFromChain: X509 ⇒ chain[0].Raw; precert ⇒ BuildPrecertTBS(chain[0].RawTBSCertificate, preIssuer) and SHA-256 of the final issuer's SPKI (chain[2] when chain[1] is a pre-issuer), unknown type ⇒ error; timestamps are ns/1e6; "+
-		"(R8) QueueLeaf / IssueSCT / buildV1SCT / Signer.Sign have no other callers. "+
-		"NOT covered: that signatures verify (crypto), the derived entry for all PKI shapes (structural part in C03/C04), backend de-duplication.",
+		"(R8) QueueLeaf / IssueSCT / buildV1SCT / Signer.Sign have no other callers; "+
+		"(R12) the entry is derived from the data that was validated: from verifyAddChain's return (for the submitted bytes: from ParseBodyAsJSONChain's) until the last call from which the LogLeaf handed to QueueLeaf is computed, nothing writes the validated chain, the certificates it points to or their byte strings — no store, no append to a shortened view (s[:0], s[i:j]), no copy/clear/delete, no library function that writes its argument (sort.Slice, slices.Reverse/DeleteFunc, …), no module function reached directly, through an interface (all module implementations), a function value or a function literal that does so to its parameter at any depth (parameter-mutation summaries, fixed point over the calls below addChainInternal) — and the reading calls themselves only read it; likewise (R1) the leaf decoded from the backend's reply between its decode and buildV1SCT, and (R5) the inputs of buildLogLeaf. Writes after the last read (and deferred ones) are allowed. "+
+		"NOT covered: that signatures verify (crypto), the derived entry for all PKI shapes (structural part in C03/C04), backend de-duplication; for R12: writes through reflect/unsafe, through references retained in memory that outlives a call (a field of a parameter, a global, a channel) and by library functions not known to write their arguments; data races with goroutines started elsewhere.",
 		runC01)
 }
 
@@ -234,6 +235,9 @@ func runC01(r *Run) {
 	r.Rule("C01.R8")
 	c01Who(r)
 
+	// the validated values stay unwritten until the entry has been derived from them (rules_t7c01chain.go)
+	c01ValidatedUnwritten(r)
+
 	// "carries the validated chain (root included)": the chain handed on is the verified path that
 	// was compared, certificate by certificate, with the submission (rule sets of C02)
 	r.Shared("C01.R11", func() {
@@ -397,17 +401,15 @@ func c01ReturnedLeaf(r *Run, fn *ssa.Function) {
 		}
 		r.Check("addChainInternal:sct-from-returned-leaf", ok && glob("iface(trillian.TrillianLogClient).QueueLeaf(*)#0.QueuedLeaf.Leaf.LeafValue", src), r.Where(build),
 			fmt.Sprintf("buildV1SCT's leaf is the MerkleTreeLeaf decoded by tls.Unmarshal from %q (must be the backend's QueuedLeaf.Leaf.LeafValue)", src))
-		// nothing else writes that leaf between decode and use
+		// nothing writes that leaf between decode and use, and buildV1SCT only reads it (rules_t7c01chain.go)
 		if a != nil {
-			n := 0
-			for _, ref := range *a.Referrers() {
-				switch ref.(type) {
-				case *ssa.DebugRef:
-				default:
-					n++
+			var decodes []ssa.CallInstruction
+			for _, u := range unm {
+				if baseAlloc(CallArgs(u)[1]) == a {
+					decodes = append(decodes, u)
 				}
 			}
-			r.Check("addChainInternal:returned-leaf-untouched", n == 2, r.Where(build), fmt.Sprintf("the decoded leaf has %d uses (decode + buildV1SCT expected)", n))
+			c01ReturnedLeafUnwritten(r, fn, a, build, decodes)
 		}
 		r.ExpectArg(build, "addChainInternal:signer", 0, "p1.signer")
 		_ = unmCall
@@ -472,6 +474,8 @@ func c01LogLeaf(r *Run) {
 	}
 	if fn != nil {
 		r.ErrorsGate(fn, "buildLogLeaf:errors", "*", 2)
+		// … and neither buildLogLeaf nor a function it calls writes through one of them (rules_t7c01chain.go)
+		c01InputsUnwritten(r, fn, "buildLogLeaf:inputs-unwritten")
 	}
 	if fn := r.Fn("trillian/util.ExtraDataForChain"); fn != nil {
 		// what is established: with isPrecert the function returns tls.Marshal of a PrecertChainEntry, without it
